@@ -873,3 +873,116 @@ func c01R16(ic *IC, r *Report) {
 		r.Errorf("R01.16: %d fallthrough wirings found in cfg (the tagged and the tagless switch are expected)", n)
 	}
 }
+
+// forKindsWithInit reads, from the AST builder, which for-statement kinds have an init clause
+// (the cases `a.Init != nil` of the switch choosing the kind).
+func forKindsWithInit(ic *IC) map[string]bool {
+	out := map[string]bool{}
+	fi := ic.F["Interpreter.ast"]
+	if fi == nil || fi.Decl.Body == nil {
+		return out
+	}
+	ast.Inspect(fi.Decl.Body, func(n ast.Node) bool {
+		cc, ok := n.(*ast.CaseClause)
+		if !ok || len(cc.List) != 1 || len(cc.Body) != 1 {
+			return true
+		}
+		as, ok := cc.Body[0].(*ast.AssignStmt)
+		if !ok || len(as.Rhs) != 1 {
+			return true
+		}
+		id, ok := as.Rhs[0].(*ast.Ident)
+		if !ok || !strings.HasPrefix(id.Name, "forStmt") {
+			return true
+		}
+		if strings.Contains(types.ExprString(cc.List[0]), "a.Init != nil") {
+			out[id.Name] = true
+		}
+		return true
+	})
+	return out
+}
+
+// R01.17: the init clause of a for statement is executed once. In the post-order case of every
+// for kind that has an init clause (read from the AST builder), the only use of the entry of the
+// statement (n.start, or the start of the init child) is its definition `n.start = init.start`:
+// no successor edge leads back to it.
+func c01R17(ic *IC, r *Report) {
+	fi := ic.fn(r, "Interpreter.cfg")
+	if fi == nil {
+		return
+	}
+	withInit := forKindsWithInit(ic)
+	if len(withInit) < 4 {
+		r.Errorf("R01.17: %d for kinds with an init clause read from the AST builder (4 expected)", len(withInit))
+		return
+	}
+	info := ic.Info
+	n := 0
+	ast.Inspect(fi.Decl.Body, func(m ast.Node) bool {
+		cc, ok := m.(*ast.CaseClause)
+		if !ok || len(cc.List) != 1 {
+			return true
+		}
+		id, ok := cc.List[0].(*ast.Ident)
+		if !ok || !withInit[id.Name] {
+			return true
+		}
+		// the post-order case wires successors: it assigns n.start
+		var initVar types.Object
+		definesStart := false
+		for _, st := range cc.Body {
+			as, ok := st.(*ast.AssignStmt)
+			if !ok {
+				continue
+			}
+			// init, ... := n.child[0], ...
+			if as.Tok == token.DEFINE && len(as.Lhs) == len(as.Rhs) {
+				for i, rhs := range as.Rhs {
+					if types.ExprString(rhs) == "n.child[0]" {
+						if lid, ok := as.Lhs[i].(*ast.Ident); ok {
+							initVar = info.ObjectOf(lid)
+						}
+					}
+				}
+			}
+			if len(as.Lhs) == 1 && types.ExprString(as.Lhs[0]) == "n.start" {
+				definesStart = true
+			}
+		}
+		if initVar == nil || !definesStart {
+			return true
+		}
+		n++
+		var bad []string
+		ast.Inspect(&ast.BlockStmt{List: cc.Body}, func(k ast.Node) bool {
+			as, ok := k.(*ast.AssignStmt)
+			if !ok {
+				return true
+			}
+			for i, rhs := range as.Rhs {
+				if i >= len(as.Lhs) {
+					break
+				}
+				lhs := types.ExprString(as.Lhs[i])
+				rs := types.ExprString(rhs)
+				back := rs == "n.start"
+				if se, ok := unparen(rhs).(*ast.SelectorExpr); ok && se.Sel.Name == "start" {
+					if x, ok := unparen(se.X).(*ast.Ident); ok && info.ObjectOf(x) == initVar {
+						back = true
+					}
+				}
+				if back && lhs != "n.start" {
+					bad = append(bad, lhs+" = "+rs+" at "+ic.pos(as.Pos()))
+				}
+			}
+			return true
+		})
+		r.Check(len(bad) == 0, "R01.17", "cfg/case:"+id.Name+"/init-executed-once", ic.pos(cc.Pos()), "no successor edge leads back to the init clause",
+			"the "+id.Name+" case of cfg wires an edge back to the entry of the statement ("+strings.Join(bad, ", ")+"), which is its init clause: the init statement is executed again at every iteration (for i := 0; ; { if i >= 3 { break }; i++ } never terminates)")
+		return true
+	})
+	if n < 4 {
+		r.Errorf("R01.17: %d post-order cases of for kinds with an init clause found in cfg (4 expected)", n)
+	}
+}
